@@ -152,6 +152,8 @@ def run(loader, R, tier):
     R.rule("R44.4", "SBML printed name is an SBML parser key constructing "
                     "the same class")
     R.rule("R44.5", "result definitely assigned in every handler")
+    R.rule("R44.6", "string positions taken from find*() are tested against "
+                    "npos before substr/erase/at")
     R.assumptions += [
         "symbol names are not themselves LaTeX markup with unbalanced "
         "braces (LatexPrinter passes names containing '\\\\' or '{' through "
@@ -206,6 +208,65 @@ def run(loader, R, tier):
                     "escaping: a name containing '<' or '&' yields "
                     "ill-formed XML" % (fkey(f), show(n)))
     R.floor("get_name() uses in MathMLPrinter", nname, 2)
+
+    # ---------------------------------------------------------------- R44.6
+    # totality: std::string::substr(pos) throws std::out_of_range for
+    # pos > size(), which is what a failed find*() (npos) produces.  In the
+    # printers every substr/erase/at whose position comes from a find*()
+    # result must be dominated by a test of that result against npos.
+    FIND = {"find", "rfind", "find_first_of", "find_first_not_of",
+            "find_last_of", "find_last_not_of"}
+    nfind = 0
+    from selib import sym as _sym
+    for c in ALL_PRINTERS + ["SymEngine::StrPrinter"]:
+        for f in functions_of(prog, c, PRINTER_FILES.get(c)):
+            from_find = {}
+            for d in walk(f["body"]):
+                if d.get("k") == "decl":
+                    for v in d.get("v", ()):
+                        i = v.get("i")
+                        if i is not None and any(
+                                x.get("k") == "mcall" and x.get("n") in FIND
+                                for x in walk(i)):
+                            from_find[v["n"]] = show(i)[:40]
+
+            def cb6(n, guards, line, f=f, from_find=from_find):
+                nonlocal nfind
+                if n.get("k") != "mcall" or n.get("n") not in (
+                        "substr", "erase", "at") or not n.get("a"):
+                    return
+                pos = n["a"][0]
+                direct = [x for x in walk(pos) if x.get("k") == "mcall"
+                          and x.get("n") in FIND]
+                names = [x["n"] for x in walk(pos) if x.get("k") == "ref"
+                         and x.get("n") in from_find]
+                if not direct and not names:
+                    return
+                nfind += 1
+                key = "%s@%s" % (fkey(f), n.get("l"))
+                ok = False
+                for g in _sym.flatten_guards(guards):
+                    if g[0] == "case":
+                        continue
+                    cnd, pol = g
+                    t = show(cnd)
+                    if "npos" in t and cnd.get("k") in ("bin", "op") and (
+                            (cnd.get("op") == "!=" and pol)
+                            or (cnd.get("op") == "==" and not pol)) \
+                            and (any(nm in t for nm in names) or direct):
+                        ok = True
+                R.instance("R44.6", key, sample={"call": show(n)[:70],
+                                                 "npos_tested": ok})
+                if not ok:
+                    R.violation(
+                        "R44.6", fkey(f), prog.loc(f, n.get("l")),
+                        "%s calls `%s` with a position that comes from a "
+                        "find*() result without a dominating test against "
+                        "npos: when nothing is found the call throws "
+                        "std::out_of_range and the printer fails" % (
+                            fkey(f), show(n)[:70]))
+            _sym.visit_guarded(f["body"], cb6)
+    R.floor("find-derived string positions in the printers", nfind, 1)
 
     # ---------------------------------------------------------------- R44.3
     sites = 0
